@@ -1493,8 +1493,11 @@ def gamma_taylor_coefficients(inprec):
             return coeffs, prec
 
     # Cache at a higher precision (large case)
+    # (the number of terms must be that of the precision the table is
+    # stored under: later requests up to that precision are served from it)
     if prec > 1000:
         prec = int(prec * 1.2)
+        N = int(prec**0.787 + 2)
 
     wp = prec + 20
     A = [0] * N
